@@ -38,8 +38,10 @@ static void codegen(const J &sc, Emitter &out)
 {
     const J &envv = sc["envv"];
     std::string text = "<?xml version=\"1.0\" encoding=\"UTF-8\"?>\n<model xmlns=\"http://www.cellml.org/cellml/2.0#\" xmlns:cellml=\"http://www.cellml.org/cellml/2.0#\" name=\"m\">\n<component name=\"main\">\n";
+    std::string initForm = sc["initForm"].str("plain");
+    std::string initSuffix = initForm == "upperE" ? "E0" : (initForm == "lowerE" ? "e0" : "");
     for (auto n : {"a", "b", "c"}) {
-        text += std::string("<variable name=\"") + n + "\" units=\"dimensionless\" initial_value=\"" + qstr(envv[n]) + "\"/>\n";
+        text += std::string("<variable name=\"") + n + "\" units=\"dimensionless\" initial_value=\"" + qstr(envv[n]) + initSuffix + "\"/>\n";
     }
     size_t k = 0;
     std::string math = "<math xmlns=\"http://www.w3.org/1998/Math/MathML\">\n";
